@@ -5,6 +5,7 @@ cd "$(dirname "$0")"
 export GOFLAGS=-mod=mod GOPROXY=off GOSUMDB=off GOTOOLCHAIN=local CGO_ENABLED=0
 mkdir -p build evidence replays
 cp /repo/go.sum harness/go.sum
+[ -f harness/go.mod ] || cp harness/go.mod.in harness/go.mod
 (cd harness && go build -tags verif -o ../build/rvh .)
 (cd lean && lake build)
 echo setup done
